@@ -1086,6 +1086,7 @@ static void RunOnce(Scenario sc /* by value: versions change */, long run_no, in
   for (auto& s : sc.stmts) if (s.badrspdir) g_disk.unwritable_dirs.insert("nodir");
   WriteManifest(sc);
   Emit("{\"e\":\"Reset\",\"sc\":" + JEsc(sc.id) + ",\"run\":" + to_string(run_no) + ",\"tw\":" + to_string(tw) + ",\"twk\":" + JEsc(sc.twin) +
+       ",\"ddbad\":" + (sc.raw["ddbad"].t == JV::Arr ? JDump(sc.raw["ddbad"]) : string("[]")) +
        ",\"g\":" + GraphJson(sc) + ",\"tree\":" + g_disk.Tree() + "}");
 
   for (auto& step : sc.hist.a) {
